@@ -74,6 +74,7 @@ func (fv *FuncVerifier) execStmt(st *State, env *Env, s ast.Stmt) []Outcome {
 		}
 		return normal(st)
 	case *ast.AssignStmt:
+		fv.trackReslice(st, env, x)
 		fv.execAssign(st, env, x)
 		return normal(st)
 	case *ast.DeclStmt:
@@ -181,6 +182,77 @@ func (fv *FuncVerifier) execStmt(st *State, env *Env, s ast.Stmt) []Outcome {
 	}
 	fv.note("abstracted: statement %T at %s", s, fv.pos(s.Pos()))
 	return normal(st)
+}
+
+// trackReslice: slices are modelled as VALUES, so writes through a shared backing array are invisible to the model.
+// The one idiom that makes such a write observable to other holders of a slice is `t := s[:k]` (k < len(s)) followed
+// by `append(t, ...)`, which overwrites s[k:]. A variable assigned a two-index reslice of a slice that is not local to
+// this function (read from the heap or a parameter) is remembered; appending to it then requires k == len(s)
+// (obligation S.alias-append). `x = append(x, ..)` keeps the mark, any other assignment clears it.
+func (fv *FuncVerifier) trackReslice(st *State, env *Env, x *ast.AssignStmt) {
+	if len(x.Lhs) != len(x.Rhs) {
+		return
+	}
+	for i, l := range x.Lhs {
+		id, ok := ast.Unparen(l).(*ast.Ident)
+		if !ok {
+			continue
+		}
+		o := env.info.ObjectOf(id)
+		if o == nil {
+			continue
+		}
+		if st.resliced == nil {
+			st.resliced = map[types.Object][2]Term{}
+		}
+		switch r := ast.Unparen(x.Rhs[i]).(type) {
+		case *ast.SliceExpr:
+			if t := fv.typeOf(env, r.X); t != nil && !r.Slice3 {
+				if _, isSl := t.Underlying().(*types.Slice); isSl && fv.sharedSliceExpr(st, env, r.X) {
+					saveObls := len(fv.obls)
+					base := fv.eval(st, env, r.X)
+					hi := fv.w.SeqLen(base)
+					if r.High != nil {
+						hi = fv.eval(st, env, r.High)
+					}
+					fv.obls = fv.obls[:saveObls] // evaluated again by the assignment itself
+					st.resliced[o] = [2]Term{base, hi}
+					continue
+				}
+			}
+			delete(st.resliced, o)
+		case *ast.CallExpr:
+			if fn, ok := ast.Unparen(r.Fun).(*ast.Ident); ok && fn.Name == "append" && len(r.Args) > 0 {
+				if a0, ok := ast.Unparen(r.Args[0]).(*ast.Ident); ok && env.info.ObjectOf(a0) == o {
+					continue // x = append(x, ...): still backed by the same array (while capacity lasts)
+				}
+			}
+			delete(st.resliced, o)
+		default:
+			delete(st.resliced, o)
+		}
+	}
+}
+
+// sharedSliceExpr: the slice denoted by e may be held by someone else (it is read from the heap, a map, or is a
+// parameter), as opposed to a slice this function built itself.
+func (fv *FuncVerifier) sharedSliceExpr(st *State, env *Env, e ast.Expr) bool {
+	switch x := ast.Unparen(e).(type) {
+	case *ast.SelectorExpr, *ast.IndexExpr:
+		return true
+	case *ast.Ident:
+		o := env.info.ObjectOf(x)
+		if o == nil {
+			return false
+		}
+		if _, isParam := fv.entryParams[o]; isParam {
+			return true
+		}
+		if v, ok := st.vars[o]; ok {
+			return strings.Contains(v.S, "(select ") || strings.Contains(v.S, "H_")
+		}
+	}
+	return false
 }
 
 func (fv *FuncVerifier) evalMulti(st *State, env *Env, e ast.Expr, n int) []Term {
